@@ -279,6 +279,73 @@ fn check_rb(c: &RbCase) -> CheckResult {
     Ok(out)
 }
 
+/// exhaustive stage: every Periodic / Sporadic / small delta-min curve with tiny parameters, plain,
+/// jittered and summed with a periodic stream - steps vs. brute force up to a fixed horizon
+fn exhaustive(tier: Tier, _seed: u64) -> ExtraResult {
+    let mut r = ExtraResult { exhaustive: true, replay_subcheck: "arrival", ..Default::default() };
+    let (tmax, jmax, emax) = tier.pick((9u64, 24u64, 5u64), (14u64, 45u64, 7u64));
+    let mut specs: Vec<ArrSpec> = vec![];
+    for t in 1..=tmax {
+        specs.push(ArrSpec::Periodic { t });
+        for j in 0..=jmax {
+            specs.push(ArrSpec::Sporadic { t, j });
+        }
+    }
+    // all non-decreasing delta-min vectors of length <= 3 with entries <= emax and a positive last entry
+    for a in 0..=emax {
+        if a > 0 {
+            specs.push(ArrSpec::Curve { dmin: vec![a], extrapolating: false });
+            specs.push(ArrSpec::Curve { dmin: vec![a], extrapolating: true });
+        }
+        for b in a..=emax {
+            if b == 0 {
+                continue;
+            }
+            for e in [false, true] {
+                specs.push(ArrSpec::Curve { dmin: vec![a, b], extrapolating: e });
+            }
+            for c in b..=emax {
+                for e in [false, true] {
+                    specs.push(ArrSpec::Curve { dmin: vec![a, b, c], extrapolating: e });
+                }
+            }
+        }
+    }
+    let base = specs.clone();
+    for sp in &base {
+        for j in [1u64, 2, 5] {
+            specs.push(ArrSpec::Jittered { inner: sp.clone().boxed(), j });
+        }
+    }
+    for (i, sp) in base.iter().enumerate() {
+        if i % 7 == 0 {
+            specs.push(ArrSpec::Sum { a: sp.clone().boxed(), b: ArrSpec::Periodic { t: 3 + (i as u64 % 4) }.boxed() });
+        }
+    }
+    for sp in specs {
+        let c = ArrCase { spec: sp, horizon: 60 };
+        r.evaluations += 1;
+        match check_arr(&c) {
+            Ok(o) => {
+                if o.nontrivial {
+                    r.nontrivial += 1;
+                }
+            }
+            Err(msg) => {
+                r.failure = Some((serde_json::to_value(&c).unwrap(), msg));
+                return r;
+            }
+        }
+    }
+    r.note = format!(
+        "every Periodic(T<={t}), Sporadic(T<={t}, J<={j}), delta-min vector of length <= 3 with entries <= {e} (plain and extrapolating), each also jittered by 1, 2, 5, and a sample summed with a periodic stream: steps_iter vs. brute force up to delta = 60 (failures are reported through the 'arrival' sub-check's replay format)",
+        t = tmax,
+        j = jmax,
+        e = emax
+    );
+    r
+}
+
 pub fn def() -> PropertyDef {
     PropertyDef {
         id: "C11",
@@ -291,6 +358,6 @@ pub fn def() -> PropertyDef {
             subcheck("arrival", (12_000, 200_000), arr_case_strategy, check_arr).with_decoder(decode_arr_case, check_arr),
             subcheck("request-bound", (4000, 80_000), rb_case_strategy, check_rb),
         ],
-        extra: None,
+        extra: Some(Box::new(exhaustive)),
     }
 }
